@@ -124,5 +124,43 @@ pub fn corr(ctx: &mut Ctx) {
             }
         }
     }
+    // ---- the timeout option itself at the ends of its range: zero, a nanosecond, an hour, and values so large that
+    // the deadline is never reached ("or never": the call behaves like an untimed one) -------------------------------
+    for _ in 0..(ctx.n / 8).max(6) {
+        let case = gen_case(&mut rng, Profile::Lossless, false, 8);
+        let untimed = run_case(&case.input, &case.opts);
+        for (label, d) in [
+            ("0", std::time::Duration::ZERO),
+            ("1ns", std::time::Duration::from_nanos(1)),
+            ("1h", std::time::Duration::from_secs(3600)),
+            ("i64::MAX s", std::time::Duration::from_secs(i64::MAX as u64)),
+            ("u64::MAX s", std::time::Duration::from_secs(u64::MAX)),
+            ("Duration::MAX", std::time::Duration::MAX),
+        ] {
+            let mut o = case.opts.to_oxi();
+            o.timeout = Some(d);
+            st.count("timeout_values");
+            let out = match crate::util::catch(|| oxipng::optimize_from_memory(&case.input, &o)) {
+                Some(Ok(v)) => Outcome::Ok(v),
+                Some(Err(e)) => Outcome::Err(e.to_string()),
+                None => Outcome::Panic,
+            };
+            let c2 = Case { img: case.img.clone(), class: format!("{} timeout={}", case.class, label), enc: case.enc.clone(), input: case.input.clone(), opts: case.opts.clone() };
+            if let Outcome::Panic = out {
+                st.fail("panic", format!("the call panics with timeout = {}", label), c2.replay_json());
+                continue;
+            }
+            judge("C01", &c2, &out, &mut st);
+            judge("C02", &c2, &out, &mut st);
+            judge("C04", &c2, &out, &mut st);
+            // a deadline that is never reached changes nothing
+            if d >= std::time::Duration::from_secs(3600) {
+                let same = match (&out, &untimed) { (Outcome::Ok(a), Outcome::Ok(b)) => a == b, (Outcome::Err(_), Outcome::Err(_)) => true, _ => false };
+                if !same {
+                    st.fail("never-expiring-timeout", format!("with timeout = {} the result differs from the untimed run", label), c2.replay_json());
+                }
+            }
+        }
+    }
     ctx.write_stats(&st);
 }
